@@ -391,15 +391,37 @@ def one_stack(R, B, vm, items, W):
             continue
         if not R.check(isinstance(got, list) and len(got) == len(items), f'roundtrip-depth-{mech}', f'stack depth {len(items)} came back as {mon.srepr(got, 80)}', W):
             continue
+        differs = False
         for i, (a, b) in enumerate(zip(items, got)):
             d = same(a, b, B, vm, f'$[{i}]')
             if d:
                 km = 'cont' if 'cont' in d or 'cdata' in d else mech
                 field = d.split(':')[0].split('.')[-1].split('[')[0] if 'cdata' in d else ''
                 R.violation(f'roundtrip-value-{km}{"-" + field if field else ""}', f'{src_name} cell: {d}', W)
+                differs = True
                 break
             R.counters['oracle_evaluations'] += 1
+        # what the parser returned is a stack like any other: serialising it gives the cell the library makes of the original values (twice the same)
+        if not differs:
+            st, again = mon.call(vm.VmStack.serialize, got)
+            R.count('reserialised_parsed_stacks')
+            if st == 'exc':
+                R.exc(again)
+                R.violation(f'reserialise-parsed-raises-{mech}-{type(again).__name__}', f'VmStack.serialize of the values VmStack.deserialize returned ({src_name} cell) raised {again!r}', W)
+            else:
+                st2, again2 = mon.call(vm.VmStack.serialize, got)
+                R.check(again.hash == c1.hash and st2 == 'ok' and again2.hash == c1.hash, f'reserialise-parsed-differs-{mech}',
+                        f'serialising the values parsed from the {src_name} cell gives another cell than serialising the original values', W)
     parsed_values_are_callers(R, B, vm, items, c1, mech, W)
+    # the list codec below VmStack is public too: same cell as the body of the stack cell, the caller's list left as it was, twice the same
+    if len(items) <= 60 and mech != 'cont':
+        lst = [to_lib_value(v, B, vm) for v in items]
+        n0 = len(lst)
+        st, l1 = mon.call(vm.VmStackList.serialize, lst)
+        st2, l2 = mon.call(vm.VmStackList.serialize, lst)
+        R.count('stack_list_serialisations')
+        ok = st == 'ok' and st2 == 'ok' and l1.hash == l2.hash and len(lst) == n0 and B.Builder().store_uint(n0, 24).store_cell(l1).end_cell().hash == c1.hash
+        R.check(ok, 'stack-list-serialize-consumes-or-differs', f'VmStackList.serialize called twice on one list: list length {n0} -> {len(lst)}, cells equal: {st == "ok" and st2 == "ok" and l1.hash == l2.hash}', W)
 
 
 def use_parsed(v, B, vm, depth=0):
